@@ -26,6 +26,7 @@ func init() {
 			{ID: "C07.R3", Min: 4, Doc: "lossless hops: per-case path enumeration of Spool.Writer and Spool.Buffer; Ingest's range loop", Run: c07r3},
 			{ID: "C07.R5", Min: 3, Doc: "the disk queue behind the spool hands back what it was given: reader and writer agree on the record format and segment-roll condition, and the read position only advances after delivery (rules C09.R5 and C09.R2 evaluated for this property as well)", Run: func(c *Check) { c09r5(c); c09r2(c) }},
 			{ID: "C07.R6", Min: 5, Doc: "keep-safe generations: every store into keepSafe.safeRecent is append(safeRecent, …), a fresh make or nil, every store into safeOld is the current safeRecent, a fresh make or nil; after safeOld = safeRecent the recent generation gets a fresh backing array before anything else can append; Add appends its argument; GetAll returns append(safeOld, safeRecent...)", Run: c07r6},
+			{ID: "C07.R7", Min: 1, Doc: "keep-safe retention: the period every NewKeepSafe call is given is a constant of at least 10 s (directly, or a package variable that is only ever assigned such constants) — lines written less than 10 s before an outage is detected are still available for replay, whatever flush period is configured", Run: c07r7},
 			{ID: "C07.R4", Min: 2, Doc: "unspool gating: the assignment toUnspool = spool.Out is dominated by the true edges of conn != nil, Spool, !SlowLastLoop, !SlowNow; the other assignment is nil", Run: c07r4},
 		},
 	})
@@ -33,70 +34,25 @@ func init() {
 
 func c07r1(c *Check) {
 	m := buildRelayModel(c)
-	nIsAlive := "(*" + modPath + "/destination.Conn).isAlive"
-	nCollect := "(*" + modPath + "/destination.Destination).collectRedo"
-	nClear := "(*" + modPath + "/destination.Conn).clearRedo"
-	spoolF := c.P.Field("destination", "Destination", "Spool")
-	tasksF := c.P.Field("destination", "Destination", "tasks")
-	selBlock := m.sel.Block()
-	cfg := &PathCfg{
-		ConsistentFields: map[*types.Var]bool{spoolF: true},
-		Stop:             func(b *ssa.BasicBlock) bool { return b == selBlock },
-		Classify: func(in ssa.Instruction) []string {
-			if g, ok := in.(*ssa.Go); ok {
-				if calleeName(&g.Call) == nCollect {
-					return []string{"go:collectRedo"}
-				}
-				return []string{"go:other"}
-			}
-			cc := callCommon(in)
-			if cc == nil {
-				return nil
-			}
-			switch calleeName(cc) {
-			case nClear:
-				return []string{"clearRedo"}
-			case "(*sync.WaitGroup).Add":
-				if isFieldAddrOf(cc.Args[0], tasksF) {
-					return []string{"tasks.Add"}
-				}
-			}
-			return nil
-		},
-		Branch: func(ifi *ssa.If, cond ssa.Value, taken bool) []string {
-			cnd, neg := negStrip(cond)
-			if call, ok := cnd.(*ssa.Call); ok && calleeName(call.Common()) == nIsAlive {
-				if taken != neg {
-					return []string{"alive"}
-				}
-				return []string{"dead"}
-			}
-			if _, f, ok := fieldLoad(cnd); ok && f == spoolF {
-				if taken != neg {
-					return []string{"spool:on"}
-				}
-				return []string{"spool:off"}
-			}
-			return nil
-		},
-	}
-	// start at the loop header; the select's block may be the header's successor chain
-	paths, trunc := EnumPaths(m.fn, m.loop.Header, cfg)
+	paths, trunc := relayHeadPaths(c, m)
 	var probs []string
 	nDead := 0
+	okArg := true
 	for i := range paths {
 		pa := &paths[i]
-		if !pa.Has("dead") {
-			if pa.Has("go:collectRedo") || pa.Has("clearRedo") {
+		deadEv, isDead := hasPrefixEvent(pa, "dead@")
+		_, collects := hasPrefixEvent(pa, "go:collectRedo@")
+		if !isDead {
+			if collects || pa.Has("clearRedo") {
 				probs = append(probs, "redo handling although the connection is alive: "+pa.String())
 			}
 			continue
 		}
 		nDead++
-		after := eventsAfter(pa, "dead")
+		after := eventsAfter(pa, deadEv)
 		has := func(cl string) bool {
 			for _, e := range after {
-				if e.Class == cl {
+				if e.Class == cl || strings.HasPrefix(e.Class, cl+"@") {
 					return true
 				}
 			}
@@ -107,14 +63,17 @@ func c07r1(c *Check) {
 			if !has("go:collectRedo") || !has("tasks.Add") || has("clearRedo") {
 				probs = append(probs, "dead connection with spooling: the in-flight lines are not handed to collectRedo (or the task is not accounted): "+pa.String())
 			}
-			// Add before go
+			// Add before go; and the collected connection is the dead one
 			ia, ig := -1, -1
 			for j, e := range after {
 				if e.Class == "tasks.Add" && ia < 0 {
 					ia = j
 				}
-				if e.Class == "go:collectRedo" && ig < 0 {
+				if strings.HasPrefix(e.Class, "go:collectRedo@") && ig < 0 {
 					ig = j
+					if strings.TrimPrefix(e.Class, "go:collectRedo@") != strings.TrimPrefix(deadEv, "dead@") {
+						okArg = false
+					}
 				}
 			}
 			if ia > ig {
@@ -139,23 +98,7 @@ func c07r1(c *Check) {
 	} else {
 		c.Hold("destination.relay redo on dead connection", c.P.InstrPos(m.loop.Header.Instrs[0]), fmt.Sprintf("%d head paths, %d through a dead connection", len(paths), nDead))
 	}
-	// the collected connection is the dead one, and it is forgotten afterwards (conn = nil)
-	okArg := false
-	allInstrs(m.fn, func(in ssa.Instruction) {
-		g, ok := in.(*ssa.Go)
-		if !ok || calleeName(&g.Call) != nCollect {
-			return
-		}
-		// argument and isAlive receiver load the same variable
-		allInstrs(m.fn, func(x ssa.Instruction) {
-			if call, ok := x.(*ssa.Call); ok && calleeName(call.Common()) == nIsAlive {
-				if sameLoc(call.Call.Args[0], g.Call.Args[1]) || sameVar(call.Call.Args[0], g.Call.Args[1]) {
-					okArg = true
-				}
-			}
-		})
-	})
-	c.Judge(okArg, "destination.relay collectRedo(conn) is given the dead connection", c.AtFn(m.fn), "same variable as tested by isAlive", "collectRedo is started for a different connection than the one found dead")
+	c.Judge(okArg && nDead > 0, "destination.relay collectRedo(conn) is given the dead connection", c.AtFn(m.fn), "same value as tested by isAlive", "collectRedo is started for a different connection than the one found dead")
 	// collectRedo
 	cr := c.P.Func("destination", "*Destination", "collectRedo")
 	cfg2 := &PathCfg{Classify: func(in ssa.Instruction) []string {
@@ -215,23 +158,29 @@ func c07r2(c *Check) {
 	nAdd := "(*" + modPath + "/destination.keepSafe).Add"
 	nWrite := "(*" + modPath + "/destination.Conn).Write"
 	var adds, writes []*ssa.Call
-	allInstrs(hd, func(in ssa.Instruction) {
-		if call, ok := in.(*ssa.Call); ok {
-			switch calleeName(call.Common()) {
-			case nAdd:
-				adds = append(adds, call)
-			case nWrite:
-				writes = append(writes, call)
-			}
+	// HandleData and the helper methods of Conn it is split into
+	for _, f := range workerFuncs(c.P, hd) {
+		if FuncName(f) == short(nWrite) {
+			continue
 		}
-	})
+		allInstrs(f, func(in ssa.Instruction) {
+			if call, ok := in.(*ssa.Call); ok {
+				switch calleeName(call.Common()) {
+				case nAdd:
+					adds = append(adds, call)
+				case nWrite:
+					writes = append(writes, call)
+				}
+			}
+		})
+	}
 	if len(writes) == 0 {
 		anchorFail("HandleData: no Conn.Write call")
 	}
 	for _, w := range writes {
 		ok := false
 		for _, a := range adds {
-			if a.Call.Args[1] == w.Call.Args[1] && instrDominates(a, w) {
+			if a.Parent() == w.Parent() && a.Call.Args[1] == w.Call.Args[1] && instrDominates(a, w) {
 				ok = true
 			}
 		}
@@ -381,118 +330,54 @@ func c07r3(c *Check) {
 
 func c07r4(c *Check) {
 	m := buildRelayModel(c)
-	outF := c.P.Field("destination", "Spool", "Out")
-	// find the value assigned to toUnspool: phi or stores to its cell
-	var assignBlocks []*ssa.BasicBlock
-	var nilAssigns int
-	record := func(v ssa.Value, b *ssa.BasicBlock) {
-		if isFieldLoad(v, outF) {
-			assignBlocks = append(assignBlocks, b)
-		} else if cst, ok := v.(*ssa.Const); ok && cst.IsNil() {
-			nilAssigns++
-		}
-	}
-	// the select state on toUnspool
-	var tu ssa.Value
-	for i, st := range m.sel.States {
-		if m.labels[i] == "toUnspool" || strings.Contains(m.labels[i], "toUnspool") {
-			tu = st.Chan
-		}
-	}
-	if tu == nil {
-		// fall back: the receive state whose channel is neither a field nor ticker
-		for _, st := range m.sel.States {
-			if _, ok := chanField(st.Chan); !ok {
-				if _, names := fieldPath(st.Chan); len(names) == 0 {
-					tu = st.Chan
+	paths, trunc := relayHeadPaths(c, m)
+	nOn, nOff := 0, 0
+	bad := ""
+	for i := range paths {
+		pa := &paths[i]
+		switch {
+		case pa.Has("unspool:?"):
+			bad = "the channel the unspool case receives from is neither spool.Out nor nil on some path: " + pa.String()
+		case pa.Has("unspool:on"):
+			nOn++
+			var missing []string
+			// the connection is held at the time of the decision: the last conn event says held, and it was not found dead
+			last := ""
+			for _, e := range pa.Events {
+				if strings.HasPrefix(e.Class, "conn:") {
+					last = e.Class
 				}
 			}
+			_, dead := hasPrefixEvent(pa, "dead@")
+			if last != "conn:held" || dead {
+				missing = append(missing, "conn != nil")
+			}
+			if !pa.Has("spool:on") {
+				missing = append(missing, "Spool")
+			}
+			if !pa.Has("slowlast:F") {
+				missing = append(missing, "!SlowLastLoop")
+			}
+			if !pa.Has("slownow:F") {
+				missing = append(missing, "!SlowNow")
+			}
+			if len(missing) > 0 {
+				bad = fmt.Sprintf("unspooling is enabled without the conditions %v: spooled lines are read (and acknowledged to the disk queue) while there is no healthy connection to take them: %s", missing, pa.String())
+			}
+		case pa.Has("unspool:off"):
+			nOff++
 		}
 	}
-	if tu == nil {
-		anchorFail("relay: toUnspool select state not found")
+	pos := c.P.InstrPos(m.loop.Header.Instrs[0])
+	if trunc || len(paths) == 0 {
+		c.Undecided("destination.relay unspool gating", pos, "path enumeration of the loop head incomplete")
+	} else if nOn == 0 {
+		c.Violate("destination.relay unspool gating", pos, "toUnspool is never the spool's Out channel: the backlog never drains")
+	} else {
+		c.Judge(bad == "" && nOff > 0, "destination.relay unspool gating", pos, fmt.Sprintf("%d head paths: toUnspool = spool.Out only under conn != nil && Spool && !SlowLastLoop && !SlowNow (%d), nil otherwise (%d)", len(paths), nOn, nOff), bad)
 	}
-	switch x := tu.(type) {
-	case *ssa.Phi:
-		for i, e := range x.Edges {
-			record(e, x.Block().Preds[i])
-		}
-	case *ssa.UnOp:
-		if al, ok := x.X.(*ssa.Alloc); ok {
-			for _, r := range *al.Referrers() {
-				if st, ok := r.(*ssa.Store); ok && st.Addr == al {
-					record(st.Val, st.Block())
-				}
-			}
-		}
-	}
-	if len(assignBlocks) == 0 {
-		c.Violate("destination.relay unspool gating", c.AtFn(m.fn), "toUnspool is never assigned the spool's Out channel: the backlog never drains")
-		return
-	}
-	want := map[string]bool{"conn!=nil": false, "Spool": false, "!SlowLastLoop": false, "!SlowNow": false}
-	for _, ab := range assignBlocks {
-		for _, b := range m.fn.Blocks {
-			ifi, ok := b.Instrs[len(b.Instrs)-1].(*ssa.If)
-			if !ok {
-				continue
-			}
-			cnd, neg := negStrip(ifi.Cond)
-			var name string
-			if bo, ok := cnd.(*ssa.BinOp); ok && (bo.Op == token.NEQ || bo.Op == token.EQL) {
-				if cst, ok := bo.Y.(*ssa.Const); ok && cst.IsNil() {
-					if strings.HasSuffix(bo.X.Type().String(), "destination.Conn") {
-						name = "conn!=nil"
-						if bo.Op == token.EQL {
-							neg = !neg
-						}
-					}
-				}
-			}
-			if _, f, ok := fieldLoad(cnd); ok {
-				switch f.Name() {
-				case "Spool":
-					name = "Spool"
-				case "SlowLastLoop":
-					name = "!SlowLastLoop"
-					neg = !neg
-				case "SlowNow":
-					name = "!SlowNow"
-					neg = !neg
-				}
-			}
-			if name == "" {
-				continue
-			}
-			si := 0
-			if neg {
-				si = 1
-			}
-			if ab == b && len(b.Succs) == 2 {
-				// the phi edge comes straight from the test block: the edge taken must be the establishing one
-				continue
-			}
-			if edgeDominates(b, b.Succs[si], ab) || (ab == b.Succs[si] && len(ab.Preds) == 1) {
-				want[name] = true
-			}
-		}
-	}
-	var missing []string
-	for k, v := range want {
-		if !v {
-			missing = append(missing, k)
-		}
-	}
-	c.Judge(len(missing) == 0 && nilAssigns >= 1, "destination.relay unspool gating", c.P.InstrPos(assignBlocks[0].Instrs[0]), "toUnspool = spool.Out only under conn != nil && Spool && !SlowLastLoop && !SlowNow; nil otherwise", fmt.Sprintf("unspooling is enabled without the conditions %v: spooled lines are read (and acknowledged to the disk queue) while there is no healthy connection to take them", missing))
 	// the unspool case sends to the connection via nonBlockingSend (C06.R4 checks the dispositions)
 	_, b := m.caseOf("toUnspool")
-	if b == nil {
-		for i, st := range m.sel.States {
-			if st.Chan == tu {
-				b = m.cases[i]
-			}
-		}
-	}
 	c.Judge(b != nil, "destination.relay unspool case located", c.AtFn(m.fn), "case body found", "unspool case body not found")
 }
 
@@ -622,4 +507,54 @@ func c07r6(c *Check) {
 		}
 	})
 	c.Judge(okGA, "destination.keepSafe.GetAll returns old then recent generation", c.AtFn(ga), "append(safeOld, safeRecent...) taken before both are reset", "GetAll does not return both generations in order (older lines first), or resets them before reading")
+}
+
+func c07r7(c *Check) {
+	nNew := modPath + "/destination.NewKeepSafe"
+	n := 0
+	const tenSeconds = int64(10e9)
+	for _, fn := range c.P.Funcs {
+		fn := fn
+		allInstrs(fn, func(in ssa.Instruction) {
+			call, ok := in.(*ssa.Call)
+			if !ok || calleeName(call.Common()) != nNew {
+				return
+			}
+			n++
+			arg := call.Call.Args[1]
+			why := ""
+			atLeast := func(v ssa.Value) bool {
+				k, ok := constInt(v)
+				return ok && k >= tenSeconds
+			}
+			switch {
+			case atLeast(arg):
+			default:
+				ok := false
+				if u, isLoad := strip(arg).(*ssa.UnOp); isLoad && u.Op == token.MUL {
+					if g, isG := u.X.(*ssa.Global); isG {
+						stores, good := 0, true
+						for _, f := range c.P.CGFuncs {
+							allInstrs(f, func(x ssa.Instruction) {
+								if st, ok := x.(*ssa.Store); ok && st.Addr == ssa.Value(g) {
+									stores++
+									if !atLeast(st.Val) {
+										good = false
+									}
+								}
+							})
+						}
+						ok = stores > 0 && good
+					}
+				}
+				if !ok {
+					why = "the keep-safe period is " + describeVal(arg) + ", which is not a constant of at least 10 s: with a short (configurable) period the lines written just before an outage is noticed are already forgotten and are neither replayed nor counted"
+				}
+			}
+			c.Judge(why == "", FuncName(fn)+" keep-safe period >= 10s", c.At(in), "a constant of at least 10 s", why)
+		})
+	}
+	if n == 0 {
+		anchorFail("no call to NewKeepSafe")
+	}
 }
